@@ -217,12 +217,18 @@ def correspondence(ctx, nets):
                       "h": hash_case(c)},
                      nontrivial=len(c["branches"]) >= 3 and (any(b[2] for b in c["branches"]) or c["variant"] != "real"))
     tot = mis = 0
-    size = 60
-    for s in range(0, len(cases), size):
+    size = 40
+    chunks = list(range(0, len(cases), size))
+
+    def evaluate(s):
         txt = ("From Coq Require Import ZArith List Bool.\nFrom PP Require Import C10.Model.\nImport ListNotations.\n"
                "Definition cs : list case := [\n%s\n].\nEval vm_compute in (summary cs).\n"
                % ";\n".join(coq_case(c) for c in cases[s:s + size]))
-        trip, outp = ctx.coq_counts(txt, "c10_cases_%d" % (s // size))
+        return ctx.coq_counts(txt, "c10_cases_%d" % (s // size))
+    from concurrent.futures import ThreadPoolExecutor
+    with ThreadPoolExecutor(max_workers=4) as ex:          # coqc runs as a subprocess: the chunks evaluate in parallel
+        results = list(ex.map(evaluate, chunks))
+    for s, (trip, outp) in zip(chunks, results):
         if not trip:
             ctx.broken("correspondence", "C10.Model vs thermal build_system_matrix (coqc failed)", outp[-800:])
             return
@@ -411,8 +417,11 @@ def monitor_net(ctx, spec, net, mode, numba, tag=""):
 def gen_specs(ctx, n):
     rng = ctx.rng
     specs = [c10_gen.mixing_witness()]
+    # loops next to a pressure-only fed part (thermal active set strictly smaller than the hydraulic one), both modes
+    for md in ("bidirectional", "sequential"):
+        specs.append(dict(c10_gen.loop(rng, p_only=True, pump="pressure"), force_mode=md))
     kinds = [c10_gen.star, c10_gen.star, c10_gen.mesh, c10_gen.loop]
-    for i in range(n - 1):
+    for i in range(n - 3):
         if i % 5 == 4:
             specs.append(dict(hgen.gen_net(rng, "heat"), kind="heat-profile", heat_sources=True))
         else:
@@ -429,6 +438,7 @@ def explore(ctx, n_nets, n_numba, with_corr=True):
     for i, spec in enumerate(specs):
         numba = i >= len(specs) - n_numba
         mode = "sequential" if i == 0 else rng.choice(["sequential", "bidirectional"])
+        mode = spec.get("force_mode", mode)
         try:
             net = hgen.build(spec)
         except Exception as e:  # noqa: BLE001
@@ -511,17 +521,30 @@ def run(ctx):
     th = threading.Thread(target=lambda: res.__setitem__("proved", ctx.prove("C10")))
     th.start()
     n_nets, n_numba = (50, 6) if ctx.quick else (400, 120)
+    import vlib
+    coqdir = getattr(vlib, "COQ", os.path.join(vlib.VERIF, "coq"))
+
+    def model_fresh():
+        try:
+            return os.path.getmtime(os.path.join(coqdir, "C10", "Model.vo")) > os.path.getmtime(os.path.join(coqdir, "C10", "Model.v"))
+        except OSError:
+            return False
+    fresh = model_fresh()          # the correspondence only needs C10/Model.vo: if it is up to date, do not wait for the build
+    captured = []
     try:
         captured = explore(ctx, n_nets, n_numba)
-    finally:
         ph["monitors"] = round(time.time() - t0, 1)
+        if captured and fresh:
+            correspondence(ctx, captured)
+            ph["correspondence"] = round(time.time() - t0, 1)
+    finally:
         th.join()
         ph["build_joined"] = round(time.time() - t0, 1)
     proved = res.get("proved", False)
-    if captured:
+    if captured and not fresh:
         correspondence(ctx, captured)
         ph["correspondence"] = round(time.time() - t0, 1)
-    else:
+    if not captured:
         ctx.broken("correspondence", "no thermal pit could be captured", "")
     if (not proved or ctx.brokens) and not ctx.violations:
         # failing-input search: a wider monitor sweep
